@@ -3,7 +3,7 @@ C08 — Signature counters strictly increase and equal what the store holds.
 Property theorems only, about the model of make_credential / get_assertion (as repaired: the increment
 saturates at the 32-bit maximum).  Counters are natural numbers bounded by 2^32-1 where it matters.
 -/
-import PasskeyVerif.Lemmas.Auth
+import PasskeyVerif.Lemmas.Counter
 namespace PasskeyVerif.C08
 open PasskeyVerif.Auth PasskeyVerif.Auth.Spec
 open PasskeyVerif.AuthData (Bytes AuthData)
@@ -134,5 +134,67 @@ theorem C08_assert_step (cfg : Cfg) (u : UvCfg) (s : Store) (req : GetReq) (r : 
                       · cases hupd
                   rw [hu]
                   simp
+
+/-- a history of assertions on one store, each under its own user-validation behaviour -/
+def history (cfg : Cfg) (s : Store) : List (UvCfg × GetReq) → Store × List (Except Nat GetResp)
+  | [] => (s, [])
+  | (u, req) :: rest =>
+    let o := getAssertion cfg u s req
+    let r := history cfg o.store rest
+    (r.1, o.result :: r.2)
+
+/-- `c+1, c+2, …` with the saturating increment -/
+def counters (c : Nat) : Nat → List Nat
+  | 0 => []
+  | n + 1 => bump c :: counters (bump c) n
+
+/-- **Any history of successful assertions with one credential** (any requests, extensions, allow lists,
+user-validation behaviours, as long as each succeeds) on a store holding that credential with counter `c`
+reports exactly `c+1, c+2, …, c+n` (saturating at 2^32−1) and ends with the credential stored with the
+last reported value — by induction over the history. -/
+theorem C08_history (cfg : Cfg) (s : Store) (p : Passkey) (c : Nat) (h : List (UvCfg × GetReq))
+    (hitems : s.items = [p]) (hc : p.counter = some c)
+    (hall : ∀ r ∈ (history cfg s h).2, ∃ g, r = .ok g) :
+    (history cfg s h).2.map (fun r => match r with | .ok g => g.authData.counter | .error _ => none)
+        = (counters c h.length).map some
+      ∧ ∃ c', (history cfg s h).1.items = [{ p with counter := some c' }]
+          ∧ c' = (counters c h.length).getLast?.getD c := by
+  induction h generalizing s p c with
+  | nil =>
+    refine ⟨rfl, c, ?_, rfl⟩
+    show s.items = _
+    rw [hitems]; cases p; simp_all
+  | cons x rest ih =>
+    obtain ⟨u, req⟩ := x
+    simp only [history] at hall ⊢
+    obtain ⟨g, hg⟩ := hall _ (List.mem_cons_self)
+    obtain ⟨h1, h2, _⟩ := getAssertion_single cfg u s req p c g hitems hc hg
+    have ih' := ih (getAssertion cfg u s req).store { p with counter := some (bump c) } (bump c) h2 rfl
+      (fun r hr => hall r (List.mem_cons_of_mem _ hr))
+    obtain ⟨ih1, c', ih2, ih3⟩ := ih'
+    refine ⟨?_, c', ?_, ?_⟩
+    · simp only [List.map_cons, List.length_cons, counters, hg, h1, ih1]
+    · rw [ih2]
+    · rw [ih3]
+      simp only [List.length_cons, counters]
+      cases hn : counters (bump c) rest.length with
+      | nil => simp
+      | cons a as => rw [List.getLast?_cons_cons]; cases hl : (a :: as).getLast? with
+        | none => simp at hl
+        | some v => rfl
+
+/-- below the maximum the reported counters are strictly increasing by one -/
+theorem C08_counters_step (c n : Nat) (h : c + n ≤ u32Max) : counters c n = (List.range n).map (fun i => c + i + 1) := by
+  induction n generalizing c with
+  | zero => rfl
+  | succ n ih =>
+    have hb : bump c = c + 1 := by unfold bump; unfold u32Max at h; omega
+    simp only [counters, hb]
+    rw [ih (c + 1) (by omega), List.range_succ_eq_map]
+    simp only [List.map_cons, List.map_map]
+    congr 1
+    apply List.map_congr_left
+    intro i _
+    simp only [Function.comp]; omega
 
 end PasskeyVerif.C08
